@@ -1,5 +1,146 @@
-(** C36 -- placeholder while the pipeline is brought up. *)
-From TLV Require Import Udp.UdpModel.
+(** C36 -- UDP transport delivers every message intact exactly once; acked prefixes are monotone; incoming
+    memory stays within the limit and is fully released.
+
+    Property theorems only; each is closed by [exact] of a lemma from Udp/UdpProofs.v or Udp/UdpSettle.v and
+    followed by [Print Assumptions].  They are statements about the abstract protocol model Udp/UdpModel.v
+    (see its header for what is transcribed from pkg/rpc/udp and what is abstracted), for EVERY sequence of
+    steps (submit, slice, send/resend, deliver, lose, duplicate, ack, timer), every number of connections into
+    the receiving transport, every memory limit and window size.
+
+    Level: partial.  Not covered by the model, hence not by these theorems: uint32 wrap-around of sequence
+    numbers, the handshake, generations and connection restarts (see finding F14), encryption/CRC, the
+    concrete resend/ack timers and the choice of chunks they trigger (the model allows every such choice),
+    non-stream-like reassembly, real concurrency of goRead/goWrite and sockets. *)
+From TLV Require Import Udp.UdpModel Udp.UdpLemmas Udp.UdpProofs Udp.UdpSettle.
 Open Scope N_scope.
-Example C36_consts : udp_MaxFuzzMessageSize <= sim_limit.
-Proof. vm_compute. discriminate. Qed.
+
+(** ** safety, over all step sequences *)
+
+(** Exactly once, intact, in order: what has been handed to the message handler of connection [c] is always a
+    prefix of the list of submitted messages -- every delivered message was submitted with identical contents,
+    none is delivered twice, none is skipped (stream-like connections deliver in submission order). *)
+Theorem C36_delivered_is_prefix_of_submitted : forall limit maxwin n s c,
+  reachable limit maxwin n s ->
+  exists k, r_deliv (rcvr (getc c s)) = firstn k (submitted (getc c s)).
+Proof. intros. eapply delivered_prefix. eapply reachable_inv; eauto. Qed.
+Print Assumptions C36_delivered_is_prefix_of_submitted.
+
+(** Acked prefixes never move backwards, neither the sender's (ackSeqNoPrefix) nor the receiver's (ackPrefix),
+    and nothing already delivered is taken back. *)
+Theorem C36_prefixes_monotone : forall limit maxwin n s st c,
+  reachable limit maxwin n s ->
+  s_prefix (sndr (getc c s)) <= s_prefix (sndr (getc c (do_step limit maxwin s st))) /\
+  r_prefix (rcvr (getc c s)) <= r_prefix (rcvr (getc c (do_step limit maxwin s st))) /\
+  exists l, r_deliv (rcvr (getc c (do_step limit maxwin s st))) = r_deliv (rcvr (getc c s)) ++ l.
+Proof. intros. apply prefixes_monotone. eapply reachable_inv; eauto. Qed.
+Print Assumptions C36_prefixes_monotone.
+
+(** The sender believes acknowledged only what the receiver really has: its acked prefix never exceeds the
+    receiver's prefix, every selectively acked chunk has been received, and so has everything an
+    acknowledgement still in flight talks about. *)
+Theorem C36_acks_truthful : forall limit maxwin n s c,
+  reachable limit maxwin n s ->
+  s_prefix (sndr (getc c s)) <= r_prefix (rcvr (getc c s)) /\
+  (forall x, In x (s_acked (sndr (getc c s))) -> rcvd (rcvr (getc c s)) x) /\
+  forall d, In d (st_net s) ->
+    match d with
+    | Ack c' p ks => p <= r_prefix (rcvr (getc c' s)) /\ forall x, In x ks -> rcvd (rcvr (getc c' s)) x
+    | Data _ _ _ => True
+    end.
+Proof. intros. apply (acks_truthful limit). eapply reachable_inv; eauto. Qed.
+Print Assumptions C36_acks_truthful.
+
+(** acquiredMemory never exceeds the limit and always equals the sum over the connections of
+    (reserved stream range - bytes already handed to the handler). *)
+Theorem C36_memory_bounded_and_accounted : forall limit maxwin n s,
+  reachable limit maxwin n s ->
+  st_acq s <= limit /\ st_acq s = total_held (st_conns s).
+Proof. intros. apply memory_bounded. eapply reachable_inv; eauto. Qed.
+Print Assumptions C36_memory_bounded_and_accounted.
+
+(** The memory waiters queue is consistent (checkInvariants of fuzz_transport.go): no connection twice, exactly
+    the connections flagged inMemoryWaitersQueue, and the first waiter really does not fit. *)
+Theorem C36_waiters_consistent : forall limit maxwin n s,
+  reachable limit maxwin n s ->
+  NoDup (st_wait s) /\
+  (forall c, In c (st_wait s) <-> (c < length (st_conns s))%nat /\ r_inq (rcvr (getc c s)) = true) /\
+  (forall w rest, st_wait s = w :: rest -> limit < st_acq s + r_req (rcvr (getc w s))) /\
+  (forall c, ~ In (r_prefix (rcvr (getc c s))) (r_got (rcvr (getc c s)))).
+Proof.
+  intros limit maxwin n s H. apply reachable_inv in H. destruct H as [C F W].
+  split; [apply (core_wnodup _ _ C)|]. split; [apply (core_wiff _ _ C)|]. split; [exact W|exact F].
+Qed.
+Print Assumptions C36_waiters_consistent.
+
+(** ** settle: the fair completion *)
+
+(** From any reachable state in which no submitted message is larger than the memory limit (the transport
+    rejects empty messages itself), the completion [complete] -- every datagram in flight arrives, then rounds
+    of "slice what is queued, resend every chunk from the acked prefix, each arriving at once, acknowledge" --
+    ends in a state where every connection has handed over exactly the submitted messages, in order, nothing
+    was submitted meanwhile, no memory is held, nobody waits for memory and the network is empty. *)
+Theorem C36_settle : forall limit maxwin n s,
+  1 <= maxwin -> reachable limit maxwin n s -> small limit s ->
+  let s' := complete limit maxwin s in
+  (forall c, r_deliv (rcvr (getc c s')) = submitted (getc c s') /\ submitted (getc c s') = submitted (getc c s)) /\
+  st_acq s' = 0 /\ st_wait s' = [] /\ st_net s' = [].
+Proof.
+  intros limit maxwin n s Hw H Hs s'.
+  destruct (complete_settles limit maxwin Hw s (reachable_inv _ _ _ _ H) Hs) as (_ & A & B & C & D & _). auto.
+Qed.
+Print Assumptions C36_settle.
+
+(** The completion is an ordinary run of the model that loses nothing, duplicates nothing and submits nothing:
+    only Slice, Send, Deliver and AckEmit steps (so its end state is reachable again). *)
+Theorem C36_settle_is_fair_run : forall limit maxwin s,
+  exists l, complete limit maxwin s = run limit maxwin s l /\ forallb fair l = true.
+Proof. exact complete_is_fair_run. Qed.
+Print Assumptions C36_settle_is_fair_run.
+
+(** Termination measure: [complete s] = drain, then (undelivered + 1) rounds (by definition), and every round
+    started with something undelivered strictly decreases the number of undelivered messages. *)
+Theorem C36_settle_measure : forall limit maxwin n s,
+  1 <= maxwin -> reachable limit maxwin n s -> st_net s = [] -> small limit s ->
+  complete limit maxwin s = iter (S (undelivered (drain limit maxwin s))) (round limit maxwin) (drain limit maxwin s) /\
+  (undelivered (round limit maxwin s) <= undelivered s)%nat /\
+  ((0 < undelivered s)%nat -> (undelivered (round limit maxwin s) < undelivered s)%nat).
+Proof.
+  intros limit maxwin n s Hw H Hn Hs. split; [reflexivity|].
+  destruct (round_spec limit maxwin Hw s (reachable_inv _ _ _ _ H) Hn Hs) as (_ & _ & _ & _ & _ & A & B). auto.
+Qed.
+Print Assumptions C36_settle_measure.
+
+(** ** the statements are not vacuous, and the hypotheses are needed *)
+
+(** a run with two senders into one receiver, loss, duplication, reordering and memory pressure (limit 12) *)
+Definition ex_steps : list step :=
+  [ Submit 0 [1;2;3;4;5;6;7;8]; Submit 1 [9;9;9;9;9;9]; Submit 0 [7;7];
+    Slice 0 [3;5]; Slice 1 [6]; Slice 0 [2];
+    Send 0 2 1; Send 1 0 1; Send 0 0 2; Dup 0; Lose 2;
+    Deliver 0; Deliver 0; Timer; AckEmit 0 0 [2]; Deliver 1; Deliver 0; Send 0 1 1; Lose 0 ].
+Definition ex_state : state := run 12 1000 (init 2) ex_steps.
+
+Example C36_ex_midway :
+  (* the last chunk of connection 0 arrived first and reserved the whole range of 10 bytes; connection 1 waits
+     for 6 bytes; nothing has been delivered yet, the sender of connection 0 knows chunk 2 as acked *)
+  (st_acq ex_state, st_wait ex_state, map (fun cn => r_deliv (rcvr cn)) (st_conns ex_state),
+   map (fun cn => s_acked (sndr cn)) (st_conns ex_state)) =
+  (10, [1%nat], [[]; []], [[2]; []]).
+Proof. vm_compute. reflexivity. Qed.
+
+Example C36_ex_settles :
+  let s' := complete 12 1000 ex_state in
+  (map (fun cn => r_deliv (rcvr cn)) (st_conns s'), st_acq s', st_wait s', st_net s') =
+  ([[[1;2;3;4;5;6;7;8]; [7;7]]; [[9;9;9;9;9;9]]], 0, [], []).
+Proof. vm_compute. reflexivity. Qed.
+
+(** a message larger than the memory limit is never delivered: the hypothesis [small] of [C36_settle] is needed *)
+Example C36_ex_too_large_never_delivered :
+  let s' := complete 4 1000 (run 4 1000 (init 1) [Submit 0 [1;2;3;4;5;6;7;8]]) in
+  (map (fun cn => r_deliv (rcvr cn)) (st_conns s'), undelivered s') = ([[]], 1%nat).
+Proof. vm_compute. reflexivity. Qed.
+
+(** the simulator's configuration (T-const from fuzz_transport.go / transport.go) satisfies the hypotheses:
+    messages are at most MaxFuzzMessageSize <= MaxFuzzTransportMemory bytes, the window is at least 1 *)
+Example C36_simulator_config : udp_MaxFuzzMessageSize <= sim_limit /\ 1 <= sim_maxwin /\ sim_transports = 16%nat.
+Proof. vm_compute. repeat split; discriminate. Qed.
